@@ -26,7 +26,7 @@
      (repair of finding K1).  For the code before the repair the statement
      was false: [C09_k1_history_old_model_refuted]. *)
 From Moc Require Import Base Match MatchProofs Merge MergeProofs MergeAggProofs MergeOracleProofs MergeOld
-  MergeMulti MergeMultiProofs.
+  MergeMulti MergeMultiProofs MergeJoint MergeJointProofs.
 Open Scope Z_scope.
 
 (** every child answered every EVENT [id]: exactly one OK per EVENT [id] *)
@@ -201,6 +201,42 @@ Theorem C09_sessions_agreement_implies_oracle : forall n k t,
   multi_agrees (repeat (init n) k) t = true -> c09_multi_oracle n k t = true.
 Proof. intros n k t Hn. apply multi_agreement_implies_c09_oracle. lia. Qed.
 Print Assumptions C09_sessions_agreement_implies_oracle.
+
+(* ------------------------------------------------------------------ *)
+(** Joint observations.  The harness's sentinel is a message that reaches the
+    client, so a history observed step by step never shows two merged replies
+    next to each other; in a [jtrace] runs of child messages are emitted with
+    no sentinel in between and observed jointly.  When the model reproduces
+    every joint observation ([joint_split] returns [true]), the attribution of
+    the observation to the steps that it returns is accepted by the oracle. *)
+Theorem C09_joint_agreement_implies_oracle : forall n t tr,
+  (2 <= n)%nat -> trace_ok n (concat (List.map fst t)) ->
+  joint_split (init n) t = (true, tr) -> c09_oracle n tr = true.
+Proof.
+  intros n t tr Hn Hok H. destruct (joint_split_agrees _ _ _ H) as [Ha Hi].
+  apply agreement_implies_c09_oracle; [lia | rewrite Hi; exact Hok | exact Ha].
+Qed.
+Print Assumptions C09_joint_agreement_implies_oracle.
+
+(** teeth: the same EVENT id submitted twice, both children accept both; child
+    1 emits its two replies in one go.  Two merged OKs are due; an output loop
+    that drops a message equal to the one before it delivers one, and that is
+    rejected (and differs from the model). *)
+Definition jx_id : str := [113]%N.
+Definition jx_ok : okm := mkOk jx_id true [] [].
+Definition jx_inputs : list (list input) :=
+  [[CEvent jx_id]; [CEvent jx_id]; [Child 0 (SOk jx_ok)]; [Child 0 (SOk jx_ok)];
+   [Child 1 (SOk jx_ok); Child 1 (SOk jx_ok)]]%nat.
+Definition jx_good : jtrace :=
+  combine jx_inputs [[]; []; []; []; [SOk (mkOk jx_id true [] []); SOk (mkOk jx_id true [] [])]].
+Definition jx_dropped : jtrace :=
+  combine jx_inputs [[]; []; []; []; [SOk (mkOk jx_id true [] [])]].
+
+Theorem C09_joint_example :
+  (let '(a, tr) := joint_split (init 2) jx_good in a && c09_oracle 2 tr) = true /\
+  (let '(a, tr) := joint_split (init 2) jx_dropped in (a, c09_oracle 2 tr)) = (false, false).
+Proof. split; vm_compute; reflexivity. Qed.
+Print Assumptions C09_joint_example.
 
 (** the judgement has teeth: two sessions, the same EVENT id in flight on
     both, child 0 rejects on session 0 only.  Replies in the order s0.child0,
